@@ -197,6 +197,8 @@ def c12(ctx):
     n, b = scale(ctx, (3000, 4), (8000, 16))
     sem.trace_batches(ctx, "illtyped", "MachineTrace_C12.cfg", n, b)
     sem.trace_batches(ctx, "mixed", "MachineTrace_C12.cfg", n, max(2, b // 2))
+    # every member of the source family with one account / cap / bound replaced by an expression of another type or an unknown name
+    sem.family_replay(ctx, "ill", "MachineTrace_C12.cfg")
     sem.repo_corpus(ctx, "MachineTrace_C12.cfg")
     return ctx.finish("fault_enumeration", "two families: (a) store faults - for every program of the Machine.tla family and of a random origin-heavy corpus, "
                       "a failure injected at the k-th store call for every k (TLC enumerates k and the reply shapes of the calls before it); "
